@@ -26,9 +26,9 @@ def gen_leaf(rng):
     if k == "float":
         return rng.choice([0.5, -2.25, 1e-6, 3.0])
     if k == "str":
-        return rng.choice(["zuko", "logit", "", "a.b", "x y", "__noNe__", "float32"])
+        return rng.choice(["zuko", "logit", "", "a.b", "x y", "__noNe__", "float32", "Λ_1", "naïve"])
     if k == "strlist":
-        return [rng.choice(["x_0", "x_1", "phi", ""]) for _ in range(rng.choice([0, 1, 3]))]
+        return [rng.choice(["x_0", "x_1", "phi", "", "α", "Λ_1", "mass 1"]) for _ in range(rng.choice([0, 1, 3]))]
     if k == "numlist":
         return [rng.randrange(10) for _ in range(rng.choice([1, 2, 4]))]
     if k == "tuple":
@@ -209,7 +209,9 @@ Definition chk (v : value) (leaves : list (list string * value)) : bool :=
                                 kw["log_q"] = [1.0, 1.0, 2.0, 0.0]
                             if cname == "SMCSamples":
                                 kw.update(beta=0.25, log_evidence=-1.5, log_evidence_error=0.125)
-                            s = cls(np.arange(8.0).reshape(4, 2) + 0.5, xp=xp, dtype=dt, parameters=["zeta", "alpha"], **kw)
+                            # parameter names as physicists write them: not alphabetical, and (every third case) with a space or a non-ASCII letter
+                            pnames = [["zeta", "alpha"], ["zeta", "alpha"], ["Λ_1", "mass 1"]][(sum(fields) + int(flat)) % 3]
+                            s = cls(np.arange(8.0).reshape(4, 2) + 0.5, xp=xp, dtype=dt, parameters=pnames, **kw)
                             case = {"cls": cname, "ns": nsname, "dtype": width, "fields": fields, "flat": flat}
                             ctx.count(json.dumps(case), True, kind=f"samples/{cname}")
                             path = os.path.join(root, "s.h5")
@@ -239,6 +241,30 @@ Definition chk (v : value) (leaves : list (list string * value)) : bool :=
                                         diffs.append(fname)
                             if diffs:
                                 ctx.violation(f"samples-roundtrip:{cname}:{diffs[0].split()[0]}", f"{cname} reloaded differs in {diffs}", case)
+        # ---------------- (b') parameter names that contain the codec's own separators ("." joins nested keys into dataset names, "/"
+        # is HDF5's path separator): the save succeeds; what comes back is checked like any other sample set
+        from aspire.samples import Samples as _S
+        for pn, tag in ((["x.y", "q"], "dot"), (["m1/m2", "q"], "slash")):
+            for flat in (True, False):
+                s0 = _S(np.arange(8.0).reshape(4, 2) + 0.5, parameters=pn, log_likelihood=[0.5, 1.0, 2.0, -1.0], log_prior=[0.0] * 4, log_q=[1.0] * 4)
+                case = {"cls": "Samples", "parameters": pn, "flat": flat}
+                ctx.count(json.dumps(case), True, kind="samples/separator-in-name")
+                path = os.path.join(root, "sep.h5")
+                try:
+                    with h5py.File(path, "w") as f:
+                        s0.save(f, flat=flat)
+                except Exception:
+                    continue          # rejected when saving: nothing was saved, nothing to reload
+                try:
+                    with h5py.File(path, "r") as f:
+                        t0 = _S.load(f)
+                    same = list(t0.parameters) == pn and np.array_equal(np.asarray(t0.x), np.asarray(s0.x))
+                except Exception as e:
+                    same = False
+                    t0 = e
+                if not same:
+                    ctx.violation(f"samples-name-with-{tag}", f"Samples with parameters {pn} was saved without complaint but does not reload: "
+                                  f"{t0!r:.160}", case)
         # ---------------- (c) histories
         from aspire.history import FlowHistory, SMCHistory
         for nsname in NS:
